@@ -21,10 +21,11 @@ HARNESSES = {
            'ext': b'Sec-WebSocket-Extensions: permessage-deflate; server_no_context_takeover\r\n', 'compress': True},
     'H9': {'threads': [[('send_binary', B1)], [('send_text', A2)]], 'loop': 2, 'steps': ['COMPRESSED-TEXT'],
            'ext': thr.DEFLATE, 'compress': True},
+    'H10': {'threads': [[('send_text', A1), ('send_binary', B1)], [('@2', 'send_binary', B2), ('@2', 'send_text', A2)]], 'two': True},
     'H7': {'threads': [[('send_text', A1)], [('send_binary', B2)], [('send_text', A2)]], 'ext': thr.DEFLATE, 'compress': True},
 }
-BOUNDS = {'quick': {'H1': 1, 'H2': 1, 'H3': 1, 'H4': 1, 'H5': 1, 'H6': 2, 'H7': 1, 'H8': 1, 'H9': 1},
-          'thorough': {'H1': 2, 'H2': 2, 'H3': 2, 'H4': 2, 'H5': 2, 'H6': 3, 'H7': 2, 'H8': 2, 'H9': 2}}
+BOUNDS = {'quick': {'H1': 1, 'H2': 1, 'H3': 1, 'H4': 1, 'H5': 1, 'H6': 2, 'H7': 1, 'H8': 1, 'H9': 1, 'H10': 1},
+          'thorough': {'H1': 2, 'H2': 2, 'H3': 2, 'H4': 2, 'H5': 2, 'H6': 3, 'H7': 2, 'H8': 2, 'H9': 2, 'H10': 2}}
 PARTS = 16
 CLOSURE = {'quick': ['H6'], 'thorough': ['H1', 'H2', 'H4', 'H5', 'H6', 'H8']}      # harnesses searched over *all* interleavings (lv.sched_closure)
 
@@ -41,16 +42,30 @@ def judge(ex, h):
     negotiated = bool(h.get('compress'))
     msgs, problems = thr.decode_messages(ex, negotiated, h.get('nct', False))
     out.extend(problems)
+    if h.get('two'):
+        # the second connection's wire is judged the same way, against the calls made on it
+        for f in ex.frames2:
+            if f.problems:
+                out.append(('invalid-frame', 'second connection: %r' % f))
+        if ex.garbage2:
+            out.append(('torn-frame', 'second connection: ' + ex.garbage2))
+        sent2 = [(thr.OPCODE[r[0]], thr.payload_of(r[0], r[3])) for rs in sc.results.values() for r in rs
+                 if len(r) > 4 and r[1] == 'ok' and not r[0].startswith('event:')]
+        got2 = [(f.opcode, f.payload) for f in ex.frames2]
+        if got2 != sent2 and not ex.garbage2:
+            out.append(('messages-differ', 'second connection: peer decoded %s, application sent %s' % (brief(got2), brief(sent2))))
     sent = []
     per_thread = {}
     for tid, results in sorted(sc.results.items()):
         for r in results:
             if r[0].startswith('event:') or r[0] == 'loop':
                 continue
-            api, status, err, arg = r
+            api, status, err, arg = r[:4]
             if status != 'ok':
                 out.append(('send-failed', '%s raised %r on an open connection' % (api, err)))
                 continue
+            if len(r) > 4:
+                continue            # call made on the second connection
             m = (thr.OPCODE[api], thr.payload_of(api, arg))
             sent.append(m)
             per_thread.setdefault(tid, []).append(m)
